@@ -189,6 +189,54 @@ impl Mon {
     }
 }
 
+/// A painter that forwards everything to a [`Mon`] but does NOT override
+/// `fill_glyph`: the trait's provided default (in skrifa) expands it into
+/// push_clip_glyph / push_transform / fill / pop_transform / pop_clip, and that
+/// expansion is then checked by the monitor like any other callback stream.
+pub struct DefaultFill<'a>(pub &'a mut Mon);
+
+impl ColorPainter for DefaultFill<'_> {
+    fn push_transform(&mut self, t: Transform) {
+        self.0.push_transform(t)
+    }
+    fn pop_transform(&mut self) {
+        self.0.pop_transform()
+    }
+    fn push_clip_glyph(&mut self, g: GlyphId) {
+        self.0.push_clip_glyph(g)
+    }
+    fn push_clip_box(&mut self, b: BoundingBox<f32>) {
+        self.0.push_clip_box(b)
+    }
+    fn pop_clip(&mut self) {
+        self.0.pop_clip()
+    }
+    fn fill(&mut self, brush: Brush<'_>) {
+        self.0.fill(brush)
+    }
+    fn paint_cached_color_glyph(&mut self, glyph: GlyphId) -> Result<PaintCachedColorGlyph, PaintError> {
+        self.0.paint_cached_color_glyph(glyph)
+    }
+    fn push_layer(&mut self, mode: CompositeMode) {
+        self.0.push_layer(mode)
+    }
+    fn pop_layer(&mut self) {
+        self.0.pop_layer()
+    }
+    fn pop_layer_with_mode(&mut self, mode: CompositeMode) {
+        self.0.pop_layer_with_mode(mode)
+    }
+}
+
+/// Paints through the monitor, honouring `policy.own_fill_glyph`.
+pub fn paint_with(glyph: &skrifa::color::ColorGlyph<'_>, loc: skrifa::instance::LocationRef<'_>, m: &mut Mon) -> Result<(), PaintError> {
+    if m.policy.own_fill_glyph {
+        glyph.paint(loc, m)
+    } else {
+        glyph.paint(loc, &mut DefaultFill(m))
+    }
+}
+
 impl ColorPainter for Mon {
     fn push_transform(&mut self, t: Transform) {
         self.tick(0);
@@ -236,22 +284,12 @@ impl ColorPainter for Mon {
         }
     }
     fn fill_glyph(&mut self, glyph_id: GlyphId, brush_transform: Option<Transform>, brush: Brush<'_>) {
-        if self.policy.own_fill_glyph {
-            self.tick(6);
-            self.digest.u32(glyph_id.to_u32());
-            self.digest.u32(brush_transform.is_some() as u32);
-        } else {
-            // the trait's default expansion
-            self.push_clip_glyph(glyph_id);
-            if let Some(t) = brush_transform {
-                self.push_transform(t);
-                self.fill(brush);
-                self.pop_transform();
-            } else {
-                self.fill(brush);
-            }
-            self.pop_clip();
-        }
+        // (painters with policy.own_fill_glyph == false are driven through `DefaultFill`,
+        // which does not override this method, so the LIBRARY's default expansion runs)
+        self.tick(6);
+        self.digest.u32(glyph_id.to_u32());
+        self.digest.u32(brush_transform.is_some() as u32);
+        let _ = brush;
     }
     fn paint_cached_color_glyph(&mut self, glyph: GlyphId) -> Result<PaintCachedColorGlyph, PaintError> {
         self.tick(7);
@@ -410,7 +448,7 @@ fn worker_main(rx: std::sync::mpsc::Receiver<Job>, tx: std::sync::mpsc::Sender<R
             }?;
             let v1 = matches!(glyph.format(), ColorGlyphFormat::ColrV1);
             let mut m = mon.borrow_mut();
-            let r = glyph.paint(skrifa::instance::LocationRef::new(&ncoords), &mut *m);
+            let r = paint_with(&glyph, skrifa::instance::LocationRef::new(&ncoords), &mut m);
             Some((v1, r))
         });
         // (after a panic the counters of the interrupted traversal are still in the hook's thread-locals)
@@ -1053,7 +1091,7 @@ pub fn paint_direct(font: &[u8], gid: u32, coords: &[i16], policy: Policy, want:
         }?;
         let v1 = matches!(glyph.format(), ColorGlyphFormat::ColrV1);
         let mut m = mon.borrow_mut();
-        let r = glyph.paint(skrifa::instance::LocationRef::new(&ncoords), &mut *m);
+        let r = paint_with(&glyph, skrifa::instance::LocationRef::new(&ncoords), &mut m);
         Some((v1, r))
     });
     let (visits, depth) = skrifa::color::verif_traversal_hooks::take_visits();
